@@ -115,8 +115,11 @@ def _root_.Kap.C08.Op.id? : Op → Option String
 
 structure Acc where
   known : Option (String × String) := none
+  mm : Option String := none        -- first model/implementation disagreement (reported only if no clause of the spec fails)
   branches : List String := []
   nontrivial : Bool := false
+
+def Acc.mismatch (a : Acc) (d : String) : Acc := if a.mm.isSome then a else { a with mm := some d }
 
 def Acc.br (a : Acc) (b : String) : Acc := if a.branches.contains b then a else { a with branches := a.branches ++ [b] }
 
@@ -140,10 +143,10 @@ def judgeSvcCrash (topics ids : List String) (ops : List Op) (unint : Option Dum
   if obs == ["none"] then
     match j? with
     | none => return acc.br "crash-point-absent"
-    | some _ => throw (.mismatch s!"{what}: the model has this crash point, the implementation had no such transaction")
+    | some _ => return acc.mismatch s!"{what}: the model has this crash point, the implementation had no such transaction"
   if obs == ["panic"] then throw (.specfail "restart-panics" what)
-  let some ss := sections obs | throw (.mismatch s!"{what}: unparsable observation")
-  let some j := j? | throw (.mismatch s!"{what}: the implementation had a transaction the model does not have")
+  let some ss := sections obs | return acc.mismatch s!"{what}: unparsable observation"
+  let some j := j? | return acc.mismatch s!"{what}: the implementation had a transaction the model does not have"
   let done := j == micros.length
   let resume := canon (sec ss "resume"); let rdisk := canon (sec ss "rdisk")
   let final := canon (sec ss "final"); let fdisk := canon (sec ss "fdisk")
@@ -173,7 +176,12 @@ def judgeSvcCrash (topics ids : List String) (ops : List Op) (unint : Option Dum
   let mut acc := acc
   if !badH.isEmpty then
     let inflight : Option (String × String) := (ops[k]?).bind fun op => op.id?.map fun i => (op.topic, i)
-    if window && badH.all (fun key => some key == inflight) then
+    -- the deviation clause: the crash falls in the window, only the id in flight is affected, and the violation is
+    -- exactly the one the transcribed code (the model) exhibits on this input
+    let c := crashAt {} ops k j
+    let r := run c.restart (ops.drop (k + 1))
+    let predicted := fun (key : String × String) => lastTold r.told key.1 key.2 != r.mem.level key.1 key.2
+    if window && badH.all (fun key => some key == inflight && predicted key) then
       acc := { acc with known := acc.known <|> some ("notify-before-persist", s!"{what}: handlers of {showKeys badH} were told a level that never reached the disk") }
     else
       throw (.specfail "handlers-not-misled" s!"{what}: {showKeys badH} final {renderDump final} told {renderDump toldb} ++ {renderDump tolda}")
@@ -186,7 +194,7 @@ def judgeSvcCrash (topics ids : List String) (ops : List Op) (unint : Option Dum
       ("resume", resume, dumpOfStore r0.mem topics mids), ("rdisk", rdisk, dumpOfStore c.disk topics mids),
       ("final", final, dumpOfStore r.mem topics mids), ("fdisk", fdisk, dumpOfStore r.disk topics mids),
       ("toldb", toldb, dumpOfTold c.told topics), ("tolda", tolda, dumpOfTold (r.told.drop c.told.length) topics)] with
-  | some d => throw (.mismatch d)
+  | some d => acc := acc.mismatch d
   | none => pure ()
   acc := acc.br (if m == 0 then "crash-after-op" else if post then "crash-post-commit" else if window then "crash-in-window" else "crash-pre-commit-silent")
   if !done && badH.isEmpty && window then acc := acc.br "window-harmless"
@@ -222,7 +230,7 @@ def judgeSvc (topics : List String) (lines : Array String) : Verdict := Id.run d
       if !bad.isEmpty then return .specfail "disk-tracks-last-non-ok" s!"uninterrupted: {showKeys bad} disk {renderDump disk}"
       match cmpDumps "uninterrupted" [("mem", mem, dumpOfStore s.mem topics ids'), ("disk", disk, dumpOfStore s.disk topics ids'),
                                       ("told", told, dumpOfTold s.told topics)] with
-      | some d => return .mismatch d
+      | some d => acc := acc.mismatch d
       | none => pure ()
       unint := some mem
     | ["crash", k, m, ph] =>
@@ -239,15 +247,16 @@ def judgeSvc (topics : List String) (lines : Array String) : Verdict := Id.run d
         let s := run {} ops
         acc := acc.br (svcOpBranch s op)
         let ntx := (op.micros.filter Micro.isTx).length
-        if !obs.isEmpty && obs != ["tx", toString ntx] then return .mismatch s!"op {ops.length} ({l}): model has {ntx} transactions"
+        if !obs.isEmpty && obs != ["tx", toString ntx] then acc := acc.mismatch s!"op {ops.length} ({l}): model has {ntx} transactions"
         ops := ops ++ [op]
         match op.id? with
         | some i => ids := dedup (ids ++ [i])
         | none => pure ()
       | none => return .badop l
-  match acc.known with
-  | some (k, d) => return .known k d
-  | none => return .ok acc.nontrivial acc.branches
+  match acc.mm, acc.known with
+  | some d, _ => return .mismatch d
+  | none, some (k, d) => return .known k d
+  | none, none => return .ok acc.nontrivial acc.branches
 
 /-! ### node-level cases -/
 
@@ -288,10 +297,10 @@ def judgeNodeCrash (cfg : Cfg) (topics ids : List String) (ops : List NOp) (unin
   if obs == ["none"] then
     match j? with
     | none => return acc.br "crash-point-absent"
-    | some _ => throw (.mismatch s!"{what}: the model has this crash point, the implementation had no such transaction")
+    | some _ => return acc.mismatch s!"{what}: the model has this crash point, the implementation had no such transaction"
   if obs == ["panic"] then throw (.specfail "restart-panics" what)
-  let some ss := sections obs | throw (.mismatch s!"{what}: unparsable observation")
-  let some j := j? | throw (.mismatch s!"{what}: the implementation had a transaction the model does not have")
+  let some ss := sections obs | return acc.mismatch s!"{what}: unparsable observation"
+  let some j := j? | return acc.mismatch s!"{what}: the implementation had a transaction the model does not have"
   let lastTx := (micros.drop j).all (fun x => !x.isTx)
   let done := j == micros.length || (post && lastTx)
   let resume := canon (sec ss "resume"); let rdisk := canon (sec ss "rdisk")
@@ -330,7 +339,8 @@ def judgeNodeCrash (cfg : Cfg) (topics ids : List String) (ops : List NOp) (unin
     let inflight := (ops[k]?).bind NOp.id?
     if done then
       throw (.specfail "handlers-not-misled" s!"{what}: {showKeys badH} final {renderDump final} told {renderDump toldb} ++ {renderDump tolda}")
-    else if badH.all (fun (T, i) => some i == inflight && (split || inWindow == some T)) then
+    else if badH.all (fun (T, i) => some i == inflight && (split || inWindow == some T) &&
+        (let r := nrecover cfg {} ops k j; lastTold r.svc.told T i != r.svc.mem.level T i)) then
       if split then
         acc := { acc with known := acc.known <|> some ("two-topic-split", s!"{what}: event recorded on the anonymous topic only; {showKeys badH} end in a level their handlers were not told") }
       else
@@ -345,7 +355,7 @@ def judgeNodeCrash (cfg : Cfg) (topics ids : List String) (ops : List NOp) (unin
       ("resume", resume, dumpOfStore r0.svc.mem topics ids), ("rdisk", rdisk, dumpOfStore c.svc.disk topics ids),
       ("final", final, dumpOfStore r.svc.mem topics ids), ("fdisk", fdisk, dumpOfStore r.svc.disk topics ids),
       ("toldb", toldb, dumpOfTold c.svc.told topics), ("tolda", tolda, dumpOfTold (r.svc.told.drop c.svc.told.length) topics)] with
-  | some d => throw (.mismatch d)
+  | some d => acc := acc.mismatch d
   | none => pure ()
   let cls : String :=
     if done then "crash-after-op" else if split then "crash-between-topics" else
@@ -384,7 +394,7 @@ def judgeNode (cfg : Cfg) (lines : Array String) : Verdict := Id.run do
       if !bad.isEmpty then return .specfail "disk-tracks-last-non-ok" s!"uninterrupted: {showKeys bad} disk {renderDump disk} told {renderDump told}"
       match cmpDumps "uninterrupted" [("mem", mem, dumpOfStore w.svc.mem topics ids'), ("disk", disk, dumpOfStore w.svc.disk topics ids'),
                                       ("told", told, dumpOfTold w.svc.told topics)] with
-      | some d => return .mismatch d
+      | some d => acc := acc.mismatch d
       | none => pure ()
       unint := some mem
     | ["crash", k, m, ph] =>
@@ -400,15 +410,16 @@ def judgeNode (cfg : Cfg) (lines : Array String) : Verdict := Id.run do
         let w := nrun cfg {} ops
         for b in nodeOpBranches cfg w op do acc := acc.br b
         let ntx := ((nplan cfg w op).filter NMicro.isTx).length
-        if !obs.isEmpty && obs != ["tx", toString ntx] then return .mismatch s!"op {ops.length} ({l}): model has {ntx} transactions"
+        if !obs.isEmpty && obs != ["tx", toString ntx] then acc := acc.mismatch s!"op {ops.length} ({l}): model has {ntx} transactions"
         ops := ops ++ [op]
         match op.id? with
         | some i => ids := dedup (ids ++ [i])
         | none => pure ()
       | none => return .badop l
-  match acc.known with
-  | some (k, d) => return .known k d
-  | none => return .ok acc.nontrivial acc.branches
+  match acc.mm, acc.known with
+  | some d, _ => return .mismatch d
+  | none, some (k, d) => return .known k d
+  | none, none => return .ok acc.nontrivial acc.branches
 
 def judge (_id : String) (lines : Array String) : Verdict :=
   match lines.toList.head? with
